@@ -185,6 +185,30 @@ def _run_all(tapes):
     return res
 
 
+def _find_comm_graph(fn, depth=0):
+    """The communication graph the post-processing closes over (used for labels / the non-trivial rule only)."""
+    import functools
+
+    if depth > 4 or fn is None:
+        return None
+    if isinstance(fn, functools.partial):
+        if "communication_graph" in fn.keywords:
+            return fn.keywords["communication_graph"]
+        return _find_comm_graph(fn.func, depth + 1)
+    for cell in getattr(fn, "__closure__", None) or ():
+        try:
+            v = cell.cell_contents
+        except ValueError:
+            continue
+        if hasattr(v, "number_of_nodes") and hasattr(v, "out_degree"):
+            return v
+        if callable(v):
+            g = _find_comm_graph(v, depth + 1)
+            if g is not None:
+                return g
+    return None
+
+
 def check_cut(spec):
     import pennylane as qp
 
@@ -209,8 +233,10 @@ def check_cut(spec):
         raise Viol("no-tapes", "cut_circuit returned no tapes", sig="cut:no-tapes")
     res = _run_all(tapes)
     got = fn(res)
-    n_frag = fn.keywords["communication_graph"].number_of_nodes()
-    n_edges = fn.keywords["communication_graph"].number_of_edges()
+    comm = _find_comm_graph(fn)
+    if comm is None:
+        raise RuntimeError("communication graph not found in the post-processing closure")
+    n_frag, n_edges = comm.number_of_nodes(), comm.number_of_edges()
     feats = {"mode": spec["t"], "fragments": n_frag, "cut_edges": n_edges, "obs": spec["obs"]["op"]}
     g = np.asarray(got, dtype=complex)
     if g.shape != () or not np.isfinite(g) or abs(g - exact) > 1e-8 * max(1.0, abs(exact)):
